@@ -10,7 +10,7 @@ import (
 
 	"github.com/dolthub/go-mysql-server/sql"
 
-	"verif/harness/core"
+	"verif/harness/g3lib"
 )
 
 type wexpr struct {
@@ -64,7 +64,7 @@ func relClass(a, b uint16) string {
 	return "partial"
 }
 
-func colViolation(r *core.Run, d *dom, op, mode string, a, b sql.MySQLRangeColumnExpr, detail map[string]any) {
+func colViolation(r *g3lib.Rec, d *dom, op, mode string, a, b sql.MySQLRangeColumnExpr, detail map[string]any) {
 	w := map[string]any{"op": op, "type": d.name, "a": a.String(), "b": b.String()}
 	for k, v := range detail {
 		w[k] = v
@@ -72,7 +72,7 @@ func colViolation(r *core.Run, d *dom, op, mode string, a, b sql.MySQLRangeColum
 	r.Violation("col:"+op+":"+mode, w)
 }
 
-func cutOrdering(r *core.Run, ctx context.Context, d *dom) {
+func cutOrdering(r *g3lib.Rec, ctx context.Context, d *dom) {
 	for p := 0; p < nPos; p++ {
 		for q := 0; q < nPos; q++ {
 			cp, cq := d.cutAt(p), d.cutAt(q)
@@ -117,7 +117,7 @@ func cutOrdering(r *core.Run, ctx context.Context, d *dom) {
 }
 
 // constructors checks "building": every exported constructor denotes the key set its name says.
-func constructors(r *core.Run, d *dom) {
+func constructors(r *g3lib.Rec, d *dom) {
 	keyPt := func(j int) int { return 2 + 2*j } // point index of key j
 	// below(j, incl): points < kj (or <=), NULL excluded
 	rangeMask := func(loPt, hiPt int) uint16 { // points loPt..hiPt inclusive
@@ -165,7 +165,7 @@ func constructors(r *core.Run, d *dom) {
 }
 
 // colPair checks every two-operand operation of MySQLRangeColumnExpr on (a, b).
-func colPair(r *core.Run, ctx context.Context, d *dom, wa, wb wexpr) {
+func colPair(r *g3lib.Rec, ctx context.Context, d *dom, wa, wb wexpr) {
 	a, b := d.expr(wa.lo, wa.up), d.expr(wb.lo, wb.up)
 	ma, mb := mask(wa.lo, wa.up), mask(wb.lo, wb.up)
 	rel := relClass(ma, mb)
@@ -284,7 +284,7 @@ func colPair(r *core.Run, ctx context.Context, d *dom, wa, wb wexpr) {
 	}
 }
 
-func colSingle(r *core.Run, ctx context.Context, d *dom, w wexpr) {
+func colSingle(r *g3lib.Rec, ctx context.Context, d *dom, w wexpr) {
 	e := d.expr(w.lo, w.up)
 	emp, err := e.IsEmpty(ctx)
 	r.Eval(1)
@@ -299,7 +299,7 @@ func colSingle(r *core.Run, ctx context.Context, d *dom, w wexpr) {
 }
 
 // simplify checks SimplifyRangeColumn on one list.
-func simplify(r *core.Run, ctx context.Context, d *dom, ws []wexpr) {
+func simplify(r *g3lib.Rec, ctx context.Context, d *dom, ws []wexpr) {
 	in := make([]sql.MySQLRangeColumnExpr, len(ws))
 	var want uint16
 	var ins []string
